@@ -101,87 +101,7 @@ def lock_discipline(ctx, repo, cg, RULE):
 
 def _rest(ctx, repo, cg):
     # ---- R2 ----------------------------------------------------------------------
-    ctx.rule('C06.R2', 'get_package_conf_or_none: the whitelist walk is inside `if not is_package_blacklisted(…)`; the '
-             'fold keeps the last non-None configuration (`acc = node.conf or acc` / `if node.conf is not None: '
-             'acc = node.conf`) seeded with the root (beartype_all) configuration; iter_packages_trie follows the '
-             'dotted name from the root and stops at the first unregistered component')
-    tm = repo.mod('beartype.claw._package.clawpkgtrie')
-    g = tm.defs.get('get_package_conf_or_none')
-    ctx.require(g is not None, 'anchor vanished: get_package_conf_or_none')
-    loops = [x for x in walk_shallow(g) if isinstance(x, ast.For) and 'iter_packages_trie' in norm(x.iter)]
-    ok, detail = False, 'no whitelist walk'
-    acc_var = None
-    if loops:
-        lp = loops[0]
-        guarded = False
-        child, p = lp, parent(lp)
-        while p is not None and p is not g:
-            if isinstance(p, ast.If) and any(child is s for s in p.body) and norm(p.test).startswith('not is_package_blacklisted('):
-                guarded = True
-            child, p = p, parent(p)
-        ok, detail = guarded, 'the whitelist walk is not guarded by the blacklist test'
-        ctx.ob('C06.R2', 'lookup:blacklist-dominates-whitelist', tm.where(lp),
-               'a blacklisted package is never looked up in the whitelist', ok, detail)
-        fold_ok, fdetail = False, 'no fold'
-        tv = lp.target.id if isinstance(lp.target, ast.Name) else None
-        for st in lp.body:
-            if isinstance(st, ast.Assign) and isinstance(st.targets[0], ast.Name):
-                acc_var = st.targets[0].id
-                v = st.value
-                if isinstance(v, ast.BoolOp) and isinstance(v.op, ast.Or) and len(v.values) == 2 \
-                        and norm(v.values[0]) == f'{tv}.conf_if_hooked' and dotted(v.values[1]) == acc_var:
-                    fold_ok = True
-                if isinstance(v, ast.IfExp) and norm(v.body) == f'{tv}.conf_if_hooked' and dotted(v.orelse) == acc_var \
-                        and norm(v.test) in (f'{tv}.conf_if_hooked', f'{tv}.conf_if_hooked is not None'):
-                    fold_ok = True
-                fdetail = norm(st)[:100]
-            if isinstance(st, ast.If) and norm(st.test) == f'{tv}.conf_if_hooked is not None' and len(st.body) == 1 \
-                    and isinstance(st.body[0], ast.Assign) and norm(st.body[0].value) == f'{tv}.conf_if_hooked':
-                acc_var = dotted(st.body[0].targets[0])
-                fold_ok = True
-        ctx.ob('C06.R2', 'lookup:deepest-prefix-wins', tm.where(lp),
-               'the configuration of the deepest registered prefix overrides shallower ones', fold_ok, fdetail)
-        seed = [a for a in walk_shallow(g) if isinstance(a, ast.Assign) and dotted(a.targets[0]) == acc_var
-                and a.lineno < lp.lineno and 'packages_trie_whitelist.conf_if_hooked' in norm(a.value)]
-        ctx.ob('C06.R2', 'lookup:seeded-with-root-conf', tm.where(lp),
-               'the fold starts from the beartype_all() configuration', bool(seed) and acc_var is not None,
-               f'{acc_var} is not seeded from the root of the whitelist')
-        rets = [r for r in walk_shallow(g) if isinstance(r, ast.Return)]
-        ctx.ob('C06.R2', 'lookup:returns-fold', tm.where(g), 'the folded configuration is what is returned',
-               len(rets) == 1 and dotted(rets[0].value) == acc_var, f'{[norm(r) for r in rets]}')
-    else:
-        ctx.ob('C06.R2', 'lookup:blacklist-dominates-whitelist', tm.where(g), 'whitelist walk exists', False, detail)
-    it = tm.defs.get('iter_packages_trie')
-    ctx.require(it is not None, 'anchor vanished: iter_packages_trie')
-    lp = [x for x in walk_shallow(it) if isinstance(x, ast.For)]
-    ok = False
-    if lp:
-        body = lp[0].body
-        gets = [s for s in body if isinstance(s, ast.Assign) and isinstance(s.value, ast.Call)
-                and isinstance(s.value.func, ast.Attribute) and s.value.func.attr == 'get'
-                and dotted(s.value.func.value) == dotted(s.targets[0]) and dotted(s.value.args[0]) == dotted(lp[0].target)]
-        brk = [s for s in body if isinstance(s, ast.If) and norm(s.test).endswith('is None') and any(isinstance(b, ast.Break) for b in s.body)]
-        yl = [s for s in body if isinstance(s, ast.Expr) and isinstance(s.value, ast.Yield)]
-        ok = bool(gets and brk and yl) and body.index(gets[0]) < body.index(brk[0]) < body.index(yl[0])
-        seed = [a for a in walk_shallow(it) if isinstance(a, (ast.Assign, ast.AnnAssign)) and a.value is not None
-                and 'claw_state.packages_trie_whitelist' == norm(a.value)]
-        ok = ok and bool(seed)
-        p0 = it.args.args[0].arg if it.args.args else None
-        whole = dotted(lp[0].iter) == p0
-        if not whole:
-            ok = False
-        detail = '' if whole else f'the walk iterates `{norm(lp[0].iter)}`, not every component of `{p0}`'
-    else:
-        detail = 'no loop'
-    ctx.ob('C06.R2', 'lookup:walk-from-root', tm.where(it),
-           'the walk descends component by component (all of them, in order) from the root and stops at the first '
-           'missing one', ok, detail)
-    callers_arg = [c for c in walk_shallow(g) if isinstance(c, ast.Call) and dotted(c.func) == 'iter_packages_trie']
-    split = [a for a in walk_shallow(g) if isinstance(a, ast.Assign) and norm(a.value) == f"{g.args.args[0].arg}.split('.')"]
-    ctx.ob('C06.R2', 'lookup:walk-over-dotted-name', tm.where(g),
-           'the walk receives the components of the looked-up package name',
-           bool(callers_arg) and bool(split) and all(c.args and dotted(c.args[0]) == dotted(split[0].targets[0]) for c in callers_arg),
-           f'{[norm(c) for c in callers_arg]}')
+    _lookup_semantics(ctx, repo)
 
     # ---- R3 ----------------------------------------------------------------------
     ctx.rule('C06.R3', 'in the call tree of hook_packages\' critical section no registry store may precede a '
@@ -203,16 +123,36 @@ def _rest(ctx, repo, cg):
                         out.append(norm(t))
         return out
     summaries = {}
-    for name in ('_blacklist_packages', '_whitelist_packages_all', '_whitelist_packages_some'):
+    # the registering helpers are found by role, not by name: the functions of this module that hook_packages calls
+    # inside its critical section and that store into the registry.  role = what they register
+    withs0 = [w for w in walk_shallow(hp) if isinstance(w, ast.With) and any(_is_lock(i.context_expr) for i in w.items)]
+    ctx.require(len(withs0) == 1, 'hook_packages: expected one critical section')
+    helpers = []
+    for c in ast.walk(withs0[0]):
+        if isinstance(c, ast.Call) and isinstance(c.func, ast.Name) and isinstance(pm.defs.get(c.func.id), ast.FunctionDef) \
+                and c.func.id not in helpers and stores_in(pm.defs[c.func.id]):
+            helpers.append(c.func.id)
+    role_of = {}
+    for name in helpers:
+        fn = pm.defs[name]
+        st = stores_in(fn)
+        if any('blacklist' in x for x in st) or any('blacklist' in norm(a.value) for a in ast.walk(fn) if isinstance(a, ast.Assign)):
+            role_of[name] = 'registration[skip-list]'
+        elif any(isinstance(x, ast.For) for x in walk_shallow(fn)):
+            role_of[name] = 'registration[some]'
+        else:
+            role_of[name] = 'registration[all]'
+    ctx.require(sorted(role_of.values()) == ['registration[all]', 'registration[skip-list]', 'registration[some]'],
+                f'hook_packages: expected one registering helper per role, found {role_of}')
+    for name in helpers:
         fn = pm.defs.get(name)
-        ctx.require(fn is not None, f'anchor vanished: {name}')
         raises = [r for r in walk_shallow(fn) if isinstance(r, ast.Raise)]
         summaries[name] = (bool(stores_in(fn)), bool(raises))
         bad = []
         Flow(lambda node: ['store'] if (isinstance(node, ast.stmt) and stores_in(node)) else [], mode='may',
              on_exit=lambda node, kind, s: bad.append(node) if (kind == 'raise' and 'store' in s) else None).run(fn)
         for r in raises:
-            ctx.ob('C06.R3', f'{name}:raise-after-store:{norm(r.exc.func) if isinstance(r.exc, ast.Call) else norm(r.exc)}',
+            ctx.ob('C06.R3', f'{role_of[name]}:raise-after-store:{norm(r.exc.func) if isinstance(r.exc, ast.Call) else norm(r.exc)}',
                    pm.where(r), f'no registry store can precede this raise inside {name}', r not in bad,
                    'a store into the registry (earlier loop iteration) may already have happened when this raises')
     # sibling callees in the critical section
@@ -233,7 +173,7 @@ def _rest(ctx, repo, cg):
                     pairs.add((a, b))
     for a, b in sorted(pairs):
         c = next(x for x in seq if dotted(x.func) == a)
-        ctx.ob('C06.R3', f'hook_packages:{a}-then-{b}', pm.where(c),
+        ctx.ob('C06.R3', f'hook_packages:{role_of[a]}-then-{role_of[b]}', pm.where(c),
                f'{a} (which stores) is not followed on any path by a callee that can still raise a conflict',
                False, f'{b} may raise after {a} has modified the registry')
     ctx.floor('C06.R3', len(seq), 3, 'registry-modifying callees in the critical section')
@@ -265,9 +205,9 @@ def _rest(ctx, repo, cg):
         # through hook_packages
         for c in seq:
             nm = dotted(c.func)
-            if nm == '_blacklist_packages':
+            if role_of.get(nm) == 'registration[skip-list]':
                 writes.add('blacklist-trie')
-            elif nm == '_whitelist_packages_all':
+            elif role_of.get(nm) == 'registration[all]':
                 writes.add('whitelist-root-conf')
         if any(isinstance(c, ast.Call) and dotted(c.func) == 'add_beartype_path_hook' for c in walk_shallow(hp)):
             writes.add('path-hook')
@@ -335,67 +275,312 @@ def _rest(ctx, repo, cg):
     _r5(ctx, repo)
 
 
+class _ATrie(object):
+    """Abstract registry node (whitelist or blacklist): a mapping of child nodes plus the slots of the real classes."""
+    _track_attribute_stores = True
+
+    def __init__(self, conf=None, **kids):
+        self.kids = dict(kids)
+        self.conf_if_hooked = conf
+        self.package_basename = None
+
+    def values(self):
+        return list(self.kids.values())
+
+    def keys(self):
+        return list(self.kids.keys())
+
+    def items(self):
+        return list(self.kids.items())
+
+    def get(self, k, d=None):
+        return self.kids.get(k, d)
+
+    def __iter__(self):
+        return iter(list(self.kids))
+
+    def __len__(self):
+        return len(self.kids)
+
+    def __contains__(self, k):
+        return k in self.kids
+
+    def __getitem__(self, k):
+        return self.kids[k]
+
+    def __setitem__(self, k, v):
+        self.kids[k] = v
+
+    def __repr__(self):
+        return f'<trie conf={self.conf_if_hooked!r} {self.kids!r}>'
+
+
+def _lookup_semantics(ctx, repo):
+    """R2 by interpretation: get_package_conf_or_none('a.b.c') over every abstract registry shape."""
+    from sa.fold import AObj, FuncVal, _Abort, _Raise, _WithValue, _call_function
+    from . import _gen
+    ctx.rule('C06.R2', 'lookup semantics, decided by interpreting get_package_conf_or_none (with is_package_blacklisted and '
+             'iter_packages_trie) for the name a.b.c over every abstract registry shape: whitelist chain registered to '
+             'depth 0–3 with a configuration set or unset at each depth (root = beartype_all), × blacklist ∈ {none, a, '
+             'a.b, a.b.c, unrelated a.x}.  Expected: None when a prefix of the name is blacklisted; otherwise the '
+             'configuration of the deepest registered prefix that has one, the root configuration failing that, else None')
+    F = _gen.engines(ctx)[0].f
+    tm = repo.mod('beartype.claw._package.clawpkgtrie')
+    fn = F.const('beartype.claw._package.clawpkgtrie', 'get_package_conf_or_none')
+    ctx.require(isinstance(fn, FuncVal), 'anchor vanished: get_package_conf_or_none')
+
+    class _T(_ATrie, AObj):
+        pass
+    state = AObj()
+    BLACKLISTED = _T()
+    olds = [F.patch_global('beartype.claw._clawstate', 'claw_state', state),
+            F.patch_global('beartype.claw._clawstate', 'claw_lock', _WithValue(None)),
+            F.patch_global('beartype.claw._package.clawpkgtrie', 'PackagesTrieBlacklisted', BLACKLISTED)]
+    prev_b = F.builtin_hook
+
+    def bh(name, args, kwargs):
+        if args and isinstance(args[0], _ATrie) and name in ('bool', 'len'):
+            return len(args[0]) if name == 'len' else bool(len(args[0]))
+        return prev_b(name, args, kwargs) if prev_b else NotImplemented
+    F.builtin_hook = bh
+    prev_i = F.isinstance_hook
+
+    def ih(obj, cls):
+        if isinstance(obj, (list, tuple)) and 'Collection' in repr(cls):
+            return True
+        return prev_i(obj, cls) if prev_i else None
+    F.isinstance_hook = ih
+    comps = ('a', 'b', 'c')
+    confs = [f'CONF@{d}' for d in range(4)]        # symbolic configurations, one per depth
+    agg = {}
+    n = 0
+    try:
+        for depth in range(4):                       # how many components of a.b.c have a whitelist node
+            for mask in range(2 ** (depth + 1)):     # which of root, a, a.b, … carry a configuration
+                for bl in ('none', 'a', 'a.b', 'a.b.c', 'a.x'):
+                    root = _T(confs[0] if mask & 1 else None)
+                    cur = root
+                    for d in range(1, depth + 1):
+                        node = _T(confs[d] if mask & (1 << d) else None)
+                        cur[comps[d - 1]] = node
+                        cur = node
+                    black = _T()
+                    if bl != 'none':
+                        parts = bl.split('.')
+                        curb = black
+                        for part in parts[:-1]:
+                            nxt = _T()
+                            curb[part] = nxt
+                            curb = nxt
+                        curb[parts[-1]] = BLACKLISTED
+                    state.packages_trie_whitelist, state.packages_trie_blacklist = root, black
+                    state.beartype_path_hook = None
+                    try:
+                        out = _call_function(F, fn, ['a.b.c'], {}, 1)
+                    except (_Abort, _Raise) as ex:
+                        ctx.require(False, f'cannot interpret get_package_conf_or_none: {ex}')
+                    if bl in ('a', 'a.b', 'a.b.c'):
+                        want = None
+                    else:
+                        have = [confs[d] for d in range(depth + 1) if mask & (1 << d)]
+                        want = have[-1] if have else None
+                    n += 1
+                    key = ('blacklisted-prefix' if bl in ('a', 'a.b', 'a.b.c') else
+                           'deepest-prefix-wins' if (mask & ~1) else 'root-configuration' if mask & 1 else 'nothing-registered')
+                    a_ = agg.setdefault(key, [0, None])
+                    a_[0] += 1
+                    if out != want and a_[1] is None:
+                        regs = [('<root>' if d == 0 else '.'.join(comps[:d])) + ('=' + confs[d] if mask & (1 << d) else '')
+                                for d in range(depth + 1)]
+                        a_[1] = (f'whitelist nodes {regs}, blacklist {bl}: get_package_conf_or_none("a.b.c") evaluates to {out!r}, '
+                                 f'expected {want!r}')
+    finally:
+        F.builtin_hook, F.isinstance_hook = prev_b, prev_i
+        F.patch_global('beartype.claw._clawstate', 'claw_state', olds[0])
+        F.patch_global('beartype.claw._clawstate', 'claw_lock', olds[1])
+        F.patch_global('beartype.claw._package.clawpkgtrie', 'PackagesTrieBlacklisted', olds[2])
+    descr = {
+        'blacklisted-prefix': 'a blacklisted prefix makes the lookup answer None whatever is whitelisted',
+        'deepest-prefix-wins': 'the configuration of the deepest registered prefix that has one is returned',
+        'root-configuration': 'with only beartype_all() registered its configuration is returned',
+        'nothing-registered': 'without any registration the lookup answers None',
+    }
+    for key in sorted(descr):
+        cnt, why = agg.get(key, [0, 'no shape of this class was evaluated'])
+        ctx.ob('C06.R2', f'lookup:{key}', tm.where(fn.node), f'{descr[key]} ({cnt} registry shapes)', why is None and cnt > 0, why or '')
+    ctx.floor('C06.R2', n, 150, 'registry shapes evaluated')
+
+
+def _registration_semantics(ctx, repo):
+    """R6 by interpretation: hook_packages() over abstract registry shapes."""
+    from sa.fold import AObj, FuncVal, Sym, _Abort, _PyCallable, _Raise, _WithValue, _call_function
+    from sa.gen import AConf
+    from . import _gen
+    ctx.rule('C06.R6', 'registration semantics, decided by interpreting hook_packages (and whatever private helpers it '
+             'calls) over abstract registry shapes: registering the dotted name N = a.b / a.b.c with configuration C on a '
+             'registry whose chain for N exists to depth 0–3, whose node for N carries no / the same / another '
+             'configuration and whose parent carries no / the same / another configuration.  Expected: another '
+             'configuration on the node of N ⇒ BeartypeClawHookException; otherwise afterwards the node of N exists and '
+             'carries C, every other node keeps what it had; beartype_all likewise for the root; the skip list of C ends '
+             'up blacklisted under its full name')
+    F = _gen.engines(ctx)[0].f
+    pm = repo.mod('beartype.claw._package.clawpkgmain')
+    fn = F.const('beartype.claw._package.clawpkgmain', 'hook_packages')
+    ctx.require(isinstance(fn, FuncVal), 'anchor vanished: hook_packages')
+    cov = F.const('beartype.claw._package.clawpkgenum', 'BeartypeClawCoverage')
+
+    class _T(_ATrie, AObj):
+        pass
+    state = AObj()
+    BLACKLISTED = _T()
+    saved = dict(F.stubs)
+    mk = _PyCallable(lambda *a, **k: _T())
+    patches = [('beartype.claw._clawstate', 'claw_state', state), ('beartype.claw._clawstate', 'claw_lock', _WithValue(None)),
+               ('beartype.claw._package.clawpkgtrie', 'PackagesTrieBlacklisted', BLACKLISTED),
+               ('beartype.claw._package.clawpkgtrie', 'PackagesTrieBlacklist', mk),
+               ('beartype.claw._package.clawpkgtrie', 'PackagesTrieWhitelist', mk)]
+    olds = [(m_, n_, F.patch_global(m_, n_, v_)) for m_, n_, v_ in patches]
+    F.stubs['beartype._util.py.utilpyinterpreter.is_python_optimized'] = lambda e, a, k: False
+    F.stubs['beartype.claw._package._clawpkgmake.make_conf_hookable'] = lambda e, a, k: (k.get('conf') if 'conf' in k else a[0])
+    F.stubs['beartype.claw._package._clawpkgmake.make_package_names_from_args'] = \
+        lambda e, a, k: (k.get('package_names') or ((k['package_name'],) if k.get('package_name') else None))
+    F.stubs['beartype.claw._importlib.clawimpmain.add_beartype_path_hook'] = lambda e, a, k: None
+    prev_i = F.isinstance_hook
+
+    def ih(obj, cls):
+        nm = repr(cls)
+        if isinstance(obj, (list, tuple)) and ('Iterable' in nm or 'Collection' in nm):
+            return True
+        if isinstance(obj, AConf) and 'BeartypeConf' in nm:
+            return True
+        return prev_i(obj, cls) if prev_i else None
+    F.isinstance_hook = ih
+    prev_b = F.builtin_hook
+
+    def bh(name, args, kwargs):
+        if args and isinstance(args[0], _ATrie) and name in ('bool', 'len'):
+            return len(args[0]) if name == 'len' else bool(len(args[0]))
+        return prev_b(name, args, kwargs) if prev_b else NotImplemented
+    F.builtin_hook = bh
+
+    def member(name):
+        from sa.fold import Unknown
+        v = F.eval_in(pm, ast.parse(f'BeartypeClawCoverage.{name}', mode='eval').body)
+        ctx.require(not isinstance(v, Unknown), f'anchor vanished: BeartypeClawCoverage.{name}')
+        return v
+    agg = {}
+    n = 0
+
+    def snapshot(t, path=()):
+        out = {path: t.conf_if_hooked}
+        for k_, v_ in t.kids.items():
+            out.update(snapshot(v_, path + (k_,)))
+        return out
+    try:
+        C, OTHER = AConf(claw_skip_package_names=()), AConf(claw_skip_package_names=())
+        for name in ('a.b', 'a.b.c'):
+            comps = tuple(name.split('.'))
+            for depth in range(len(comps) + 1):                 # chain nodes that already exist
+                for tconf in ('none', 'same', 'other'):
+                    if tconf != 'none' and depth < len(comps):
+                        continue                                # the node of N does not exist yet: it has no configuration
+                    for pconf in ('none', 'same', 'other'):
+                        if pconf != 'none' and depth < len(comps) - 1:
+                            continue
+                        root = _T()
+                        cur = root
+                        for d in range(depth):
+                            node = _T()
+                            if d == len(comps) - 1:
+                                node.conf_if_hooked = {'none': None, 'same': C, 'other': OTHER}[tconf]
+                            if d == len(comps) - 2:
+                                node.conf_if_hooked = {'none': None, 'same': C, 'other': OTHER}[pconf]
+                            cur[comps[d]] = node
+                            cur = node
+                        state.packages_trie_whitelist, state.packages_trie_blacklist = root, _T()
+                        state.beartype_path_hook = None
+                        before = snapshot(root)
+                        raised = None
+                        try:
+                            _call_function(F, fn, [], dict(claw_coverage=member('PACKAGES_ONE'), conf=C, package_name=name), 1)
+                        except _Raise as ex:
+                            raised = getattr(ex.what, 'name', str(ex.what))
+                        except _Abort as ex:
+                            ctx.require(False, f'cannot interpret hook_packages: {ex}')
+                        after = snapshot(root)
+                        n += 1
+                        if tconf == 'other':
+                            ok = raised == 'BeartypeClawHookException' and after == before
+                            key = 'conflict-raises-and-leaves-registry-unchanged'
+                        else:
+                            want = dict(before)
+                            for d in range(1, len(comps) + 1):
+                                want.setdefault(comps[:d], None)
+                            want[comps] = C
+                            ok = raised is None and after == want
+                            key = 'name-registered-on-its-own-node'
+                        a_ = agg.setdefault(key, [0, None])
+                        a_[0] += 1
+                        if not ok and a_[1] is None:
+                            a_[1] = (f'registering {name} on a registry with {depth} chain node(s), node conf={tconf}, parent conf={pconf}: '
+                                     f'raised {raised}; configurations afterwards ' +
+                                     str({".".join(k_) or "<root>": ("C" if v_ is C else "OTHER" if v_ is OTHER else v_) for k_, v_ in after.items()}))
+        # beartype_all
+        for rconf in ('none', 'same', 'other'):
+            root = _T({'none': None, 'same': C, 'other': OTHER}[rconf])
+            state.packages_trie_whitelist, state.packages_trie_blacklist = root, _T()
+            raised = None
+            try:
+                _call_function(F, fn, [], dict(claw_coverage=member('PACKAGES_ALL'), conf=C), 1)
+            except _Raise as ex:
+                raised = getattr(ex.what, 'name', str(ex.what))
+            except _Abort as ex:
+                ctx.require(False, f'cannot interpret hook_packages (all): {ex}')
+            n += 1
+            ok = (raised == 'BeartypeClawHookException' and root.conf_if_hooked is OTHER) if rconf == 'other' else \
+                (raised is None and root.conf_if_hooked is C and not root.kids)
+            a_ = agg.setdefault('beartype_all-registers-on-the-root', [0, None])
+            a_[0] += 1
+            if not ok and a_[1] is None:
+                a_[1] = f'root configuration {rconf}: raised {raised}, root afterwards {root!r}'
+        # skip list
+        CS = AConf(claw_skip_package_names=('s.t.u', 'v'))
+        root, black = _T(), _T()
+        state.packages_trie_whitelist, state.packages_trie_blacklist = root, black
+        try:
+            _call_function(F, fn, [], dict(claw_coverage=member('PACKAGES_ONE'), conf=CS, package_name='a'), 1)
+        except (_Abort, _Raise) as ex:
+            ctx.require(False, f'cannot interpret hook_packages (skip list): {ex}')
+        n += 1
+
+        def at(t, path):
+            for p_ in path:
+                t = t.get(p_) if isinstance(t, _ATrie) else None
+                if t is None:
+                    return None
+            return t
+        ok = at(black, ('s', 't', 'u')) is BLACKLISTED and at(black, ('v',)) is BLACKLISTED and at(black, ('s', 't')) is not BLACKLISTED \
+            and at(black, ('s',)) is not BLACKLISTED
+        agg['skip-list-blacklisted-under-full-names'] = [1, None if ok else f'blacklist afterwards: {black!r}']
+    finally:
+        F.builtin_hook, F.isinstance_hook = prev_b, prev_i
+        for m_, n_, o_ in olds:
+            F.patch_global(m_, n_, o_)
+        F.stubs.clear()
+        F.stubs.update(saved)
+    for key in ('name-registered-on-its-own-node', 'conflict-raises-and-leaves-registry-unchanged',
+                'beartype_all-registers-on-the-root', 'skip-list-blacklisted-under-full-names'):
+        cnt, why = agg.get(key, [0, 'no shape of this class was evaluated'])
+        ctx.ob('C06.R6', f'registration:{key}', pm.where(fn.node), f'{key} ({cnt} registry shapes)', why is None and cnt > 0, why or '')
+    ctx.floor('C06.R6', n, 20, 'registry shapes × operations evaluated')
+
+
 def _registration(ctx, repo, cg):
     """R6–R8: registering a name reaches the node of that name; the "anything registered?" test
     sees registrations at every depth; the registry is only written by the registration module."""
     pm = repo.mod('beartype.claw._package.clawpkgmain')
     # ---- R6 ----------------------------------------------------------------------
-    ctx.rule('C06.R6', 'registration descends to the node of the *full* dotted name: in _whitelist_packages_some and '
-             '_blacklist_packages the component loop iterates the split of the name (minus the leaf for the '
-             'blacklist), creates the missing child and descends in every iteration, and has no early exit '
-             '(break / continue / return / raise); the configuration (or the blacklisted marker) is stored on the '
-             'node the descent ended on')
-    for fname, leaf in (('_whitelist_packages_some', False), ('_blacklist_packages', True)):
-        fn = pm.defs.get(fname)
-        ctx.require(fn is not None, f'anchor vanished: {fname}')
-        # the loop over the package names that stores into the registry (a preceding read-only validation
-        # pass, as a repair of F7 would add, is not a registration loop)
-        outer = [x for x in walk_shallow(fn) if isinstance(x, ast.For) and parent(x) is fn and any(
-            isinstance(a, ast.Assign) and isinstance(a.targets[0], (ast.Subscript, ast.Attribute)) for a in ast.walk(x))]
-        ctx.require(len(outer) == 1, f'{fname}: expected one storing loop over the package names')
-        name_var = dotted(outer[0].target)
-        inner = [x for x in outer[0].body if isinstance(x, ast.For)]
-        ctx.require(len(inner) == 1, f'{fname}: expected one descent loop per package name')
-        lp = inner[0]
-        comps = dotted(lp.iter)
-        split = [a for a in outer[0].body if isinstance(a, ast.Assign) and dotted(a.targets[0]) == comps]
-        ok_iter = bool(split) and norm(split[0].value) == f"{name_var}.split('.')"
-        if leaf and ok_iter:
-            # the blacklist stores the marker under the last component: the loop runs over components[:-1]
-            ok_iter = len(split) == 2 and norm(split[1].value) == f'{comps}[:-1]'
-        elif ok_iter:
-            ok_iter = len(split) == 1
-        ctx.ob('C06.R6', f'{fname}:descent-over-all-components', pm.where(lp),
-               'the descent loop runs over every component of the registered name', ok_iter,
-               f'loop over `{norm(lp.iter)}`; assignments to it: {[norm(a.value) for a in split]}')
-        exits = [x for x in ast.walk(lp) if isinstance(x, (ast.Break, ast.Continue, ast.Return, ast.Raise))]
-        ctx.ob('C06.R6', f'{fname}:descent-has-no-early-exit', pm.where(exits[0] if exits else lp),
-               'the descent loop has no early exit: the node reached is the node of the full name', not exits,
-               f'`{norm(exits[0])}` under `{norm(parent(exits[0]).test)[:80] if exits and isinstance(parent(exits[0]), ast.If) else ""}` '
-               f'leaves the descent before the last component' if exits else '')
-        cur = None
-        desc = [a for a in lp.body if isinstance(a, ast.Assign) and isinstance(a.value, ast.Subscript)
-                and dotted(a.value.value) == dotted(a.targets[0]) and dotted(a.value.slice) == dotted(lp.target)]
-        ok_desc = len(desc) == 1 and lp.body[-1] is desc[0]
-        if desc:
-            cur = dotted(desc[0].targets[0])
-        create = [i for i in lp.body if isinstance(i, ast.If) and norm(i.test) == f'{dotted(lp.target)} not in {cur}']
-        ok_desc = ok_desc and len(create) == 1 and len(lp.body) == 2
-        ctx.ob('C06.R6', f'{fname}:descent-creates-and-descends', pm.where(lp),
-               'each iteration creates the missing child and then descends into it, unconditionally', ok_desc,
-               f'loop body: {[norm(x)[:60] for x in lp.body]}')
-        after = outer[0].body[outer[0].body.index(lp) + 1:]
-        tgt_ok = False
-        for st in after:
-            for a in ast.walk(st):
-                if isinstance(a, ast.Assign):
-                    t = a.targets[0]
-                    if leaf and isinstance(t, ast.Subscript) and dotted(t.value) == cur:
-                        tgt_ok = True
-                    if not leaf and isinstance(t, ast.Attribute) and t.attr == 'conf_if_hooked' and dotted(t.value) == cur:
-                        tgt_ok = True
-        ctx.ob('C06.R6', f'{fname}:stores-on-descended-node', pm.where(outer[0]),
-               'the registration is stored on the node the descent ended on', tgt_ok and cur is not None, f'descent variable {cur}')
+    _registration_semantics(ctx, repo)
 
     # ---- R7 ----------------------------------------------------------------------
     ctx.rule('C06.R7', 'is_packages_trie() — which decides whether the path hook may be removed — is true whenever '
@@ -512,9 +697,12 @@ def _registration(ctx, repo, cg):
                     continue
                 n += 1
                 v = a.value
-                ok = q.endswith('clawpkgcontext.beartyping') and txt.endswith('packages_trie_whitelist.conf_if_hooked') and (
+                # the value restored is a local that was read from that same registry field earlier in the function
+                saved_here = {a2.targets[0].id for a2 in ast.walk(fn) if isinstance(a2, ast.Assign) and isinstance(a2.targets[0], ast.Name)
+                              and norm(a2.value).endswith('packages_trie_whitelist.conf_if_hooked')}
+                ok = q.endswith('.beartyping') and txt.endswith('packages_trie_whitelist.conf_if_hooked') and (
                     (isinstance(v, ast.Constant) and v.value is None) or
-                    (isinstance(v, ast.Name) and v.id.endswith('_old')))
+                    (isinstance(v, ast.Name) and v.id in saved_here))
                 ctx.ob('C06.R8', f'registry-store:{q.replace("beartype.claw.", "")}:{txt}={norm(v)[:40]}', m.where(a),
                        'a store into the registry outside the registration module is the reset / restore of beartyping()',
                        ok, f'`{norm(a)[:100]}` registers a configuration without going through hook_packages '
@@ -543,6 +731,7 @@ def _r5(ctx, repo):
              'state they establish), keep claw_state.beartype_path_hook in step with sys.path_hooks, and '
              'invalidate the importer caches after changing sys.path_hooks')
     im = repo.mod('beartype.claw._importlib.clawimpmain')
+    invalidators = {}
     for fname, guard_txt, mutate in (('add_beartype_path_hook', 'is not None', 'insert'),
                                      ('remove_beartype_path_hook', 'is None', 'remove')):
         fn = im.defs.get(fname)
@@ -559,16 +748,22 @@ def _r5(ctx, repo):
                 if isinstance(x, ast.Call) and isinstance(x.func, ast.Attribute) and dotted(x.func.value) == 'path_hooks' \
                         and x.func.attr == mutate:
                     order.append('mutate')
-                if isinstance(x, ast.Call) and dotted(x.func) == '_clear_importlib_caches':
-                    order.append('clear')
+                if isinstance(x, ast.Call) and isinstance(x.func, ast.Name):
+                    # the cache invalidator is recognised by what it does (wherever it lives, whatever it is called)
+                    r = repo.resolve_expr(im, x.func)
+                    dm = repo.modules.get(getattr(r, 'module', None) or '')
+                    fd = dm.defs.get(r.name) if dm is not None and getattr(r, 'name', None) else None
+                    if isinstance(fd, ast.FunctionDef) and ('path_importer_cache' in norm(fd) or 'invalidate_caches' in norm(fd)):
+                        order.append('clear')
+                        invalidators[(dm.name, fd.name)] = (dm, fd)
             if isinstance(st, ast.Assign) and norm(st.targets[0]) == 'claw_state.beartype_path_hook':
                 order.append('slot')
         ctx.ob('C06.R5', f'{fname}:mutate-slot-invalidate', im.where(fn),
                'sys.path_hooks is changed, the slot updated and the caches invalidated, in that order',
                order == ['mutate', 'slot', 'clear'], f'{order}')
-    cl = im.defs.get('_clear_importlib_caches')
-    ctx.require(cl is not None, 'anchor vanished: _clear_importlib_caches')
+    ctx.require(len(invalidators) == 1, f'expected one importer-cache invalidator called by the path-hook functions, found {sorted(invalidators)}')
+    (dm, cl), = invalidators.values()
     txt = norm(cl)
-    ctx.ob('C06.R5', '_clear_importlib_caches:both-caches', im.where(cl),
+    ctx.ob('C06.R5', 'clear-importlib-caches:both-caches', dm.where(cl),
            'both sys.path_importer_cache and the finders\' caches are invalidated',
            'path_importer_cache.clear()' in txt and 'invalidate_caches()' in txt, '')
